@@ -981,6 +981,14 @@ func (c *c08Run) runBatchInv(m *c08Module, pkgs []*c08Pkg, tag string, depth int
 		src, ok := t[outputRel(p.importPath)]
 		if !ok {
 			if failedDirs[filepath.Join(m.dir, p.Dir)] || len(rep.LoadFailed) > 0 {
+				if blk := c06BlocksOf(iv.res.Stderr, filepath.Join(m.dir, p.Dir), p.importPath); len(pkgs) > 1 && strings.Contains(blk, "package uses multiple ffis") {
+					// refused inside a multi-package invocation: the package reaches at most one FFI by construction, and
+					// what goose decides for a package does not depend on what else is translated with it, so this is
+					// judged here and not after a retry of the package alone
+					c.violate("one-ffi-package-refused-as-multiple-ffis", fmt.Sprintf("package %s reaches the FFIs %v (reference walk of its import graph) but goose refuses it when it is translated together with %d other packages: %s", p.importPath, refFfis(m.generatedGraph(), p.importPath), len(pkgs)-1, firstLines(blk, 2)), v)
+					c.judged(p, v)
+					continue
+				}
 				if depth == 0 && len(pkgs) > 1 {
 					// once more on its own (a transient `go list` failure must not cost the case)
 					r.Count("untranslated_packages_retried_alone", 1)
@@ -1164,7 +1172,68 @@ func (c *c08Run) runModule(m *c08Module) error {
 		c.runBatchFlags(m, partial, "partial", 0, []string{"-ignore-errors"})
 	}
 	c.runShapes(m, normal)
+	c.runFfiClientPairs(m, normal)
 	return nil
+}
+
+// runFfiClientPairs: the FFI decision for a package must not depend on which other packages are translated in
+// the invocation nor on their order. Every client of every FFI (direct, and behind one plain package) is
+// translated together with every other client, in both orders (2-package invocations), and all clients
+// together in sorted and in reverse order; each file is judged against the reference of its own package.
+func (c *c08Run) runFfiClientPairs(m *c08Module, normal []*c08Pkg) {
+	var direct, via []*c08Pkg
+	for _, p := range normal {
+		b := path.Base(p.Dir)
+		switch {
+		case strings.HasPrefix(b, "c1_"):
+			direct = append(direct, p)
+		case strings.HasPrefix(b, "c2_"):
+			via = append(via, p)
+		}
+	}
+	if len(direct) < 3 {
+		return
+	}
+	type job struct{ a, b *c08Pkg }
+	var jobs []job
+	for _, a := range direct {
+		for _, b := range direct {
+			if a != b {
+				jobs = append(jobs, job{a, b})
+			}
+		}
+	}
+	// a client behind a plain package with every direct client of another FFI, both orders (main module only:
+	// the other modules repeat the direct pairs under their module paths)
+	if m.Name == "main" {
+		for _, a := range via {
+			for _, b := range direct {
+				if strings.TrimPrefix(path.Base(a.Dir), "c2_") != strings.TrimPrefix(path.Base(b.Dir), "c1_") {
+					jobs = append(jobs, job{a, b}, job{b, a})
+				}
+			}
+		}
+	} else if m.Name != "modpath0" {
+		jobs = jobs[:0]
+	}
+	mk := func(pkgs []*c08Pkg, shape string) *c08Inv {
+		inv := &c08Inv{Shape: shape, Cwd: m.dir}
+		for _, p := range pkgs {
+			inv.Patterns = append(inv.Patterns, "./"+p.Dir)
+		}
+		return inv
+	}
+	core.Parallel(len(jobs), 8, func(i int) {
+		set := []*c08Pkg{jobs[i].a, jobs[i].b}
+		c.runBatchInv(m, set, fmt.Sprintf("pair%d", i), 1, nil, mk(set, "ffi-client-pair-in-both-orders"))
+	})
+	all := append(append([]*c08Pkg{}, direct...), via...)
+	rev := make([]*c08Pkg, len(all))
+	for i, p := range all {
+		rev[len(all)-1-i] = p
+	}
+	c.runBatchInv(m, all, "clients-fwd", 1, nil, mk(all, "all-ffi-clients-one-invocation"))
+	c.runBatchInv(m, rev, "clients-rev", 1, nil, mk(rev, "all-ffi-clients-one-invocation"))
 }
 
 // runShapes judges the same headers under other forms of the command line: what a file's header and path
